@@ -330,6 +330,78 @@ func jobC16(c *rt.Ctx) {
 			}
 		}
 	}
+	// output parameters are fully overwritten: the result must not depend on what the output variable
+	// held before (VerifyBatch reuses its point and scalar slots from one chunk to the next)
+	c.Require("dirty-output")
+	dirty := func() Ge25519 {
+		var g Ge25519
+		junk := ref.BaseMul(big.NewInt(987654321)).Encode()
+		UnpackVartime(&g, junk)
+		Double(&g, &g)
+		return g
+	}
+	for i, s1 := range []*big.Int{big.NewInt(0), big.NewInt(1), a0, badd(ref.L, -1), pow2(252)} {
+		for j, s2 := range []*big.Int{big.NewInt(0), big.NewInt(1), a1} {
+			for pi, p := range []kpoint{allP[0], allP[7], allP[12], allP[13]} {
+				if !c.Take() {
+					continue
+				}
+				c.Class("dirty-output")
+				c.Distinct(fmt.Sprintf("dirty %d %d %d", i, j, pi), true)
+				enc := p.ref().Encode()
+				var m1, m2 modm.Bignum256
+				modm.Expand(&m1, ref.ToLE(s1, 32))
+				modm.Expand(&m2, ref.ToLE(s2, 32))
+				P := dirty()
+				if !UnpackNegativeVartime(&P, enc) {
+					c.Fail("cannot unpack")
+					return
+				}
+				var Pf Ge25519
+				UnpackNegativeVartime(&Pf, enc)
+				r, full, q, ad, db := dirty(), dirty(), dirty(), dirty(), dirty()
+				DoubleScalarmultVartime(&r, &P, &m1, &m2)
+				ProjectiveToExtended(&full, &r)
+				CofactorMultiply(&q, &Pf)
+				Add(&ad, &Pf, &Pf)
+				Double(&db, &Pf)
+				fb := dirty()
+				ScalarmultBaseNiels(&fb, &NielsBaseMultiples, &m1)
+				var o1, o2, o3, o4, o5, o6 [32]byte
+				for k := range o1 {
+					o1[k], o2[k], o3[k], o4[k], o5[k], o6[k] = 0xAA, 0xAA, 0xAA, 0xAA, 0xAA, 0xAA
+				}
+				Pack(o1[:], &full)
+				Pack(o2[:], &q)
+				Pack(o3[:], &ad)
+				Pack(o4[:], &db)
+				Pack(o5[:], &fb)
+				Pack(o6[:], &P)
+				c.Step(6)
+				neg := kpoint{new(big.Int).Mod(new(big.Int).Neg(p.k), ref.L), (8 - p.t) % 8}
+				wantD := mulKnown(neg, s1, s2).Encode()
+				np := neg.ref()
+				bad := ""
+				switch {
+				case !bytes.Equal(o1[:], wantD):
+					bad = "DoubleScalarmultVartime / ProjectiveToExtended"
+				case !bytes.Equal(o2[:], np.MulInt(8).Encode()):
+					bad = "CofactorMultiply"
+				case !bytes.Equal(o3[:], np.Double().Encode()):
+					bad = "Add"
+				case !bytes.Equal(o4[:], np.Double().Encode()):
+					bad = "Double"
+				case !bytes.Equal(o5[:], ref.BaseMul(s1).Encode()):
+					bad = "ScalarmultBaseNiels"
+				case !bytes.Equal(o6[:], np.Encode()):
+					bad = "UnpackNegativeVartime / Pack"
+				}
+				if bad != "" {
+					c.Violation("C16 dirty-output "+bad, fmt.Sprintf("%s: the result depends on the previous content of the output variable (s1=%s s2=%s P=%x)", bad, s1, s2, enc), map[string]interface{}{"function": bad, "s1": s1.String(), "s2": s2.String(), "P": ref.Hex(enc)})
+				}
+			}
+		}
+	}
 	// one exact check of the structured expectation against a direct model computation
 	if c.Take() {
 		p := allP[12]
